@@ -63,48 +63,38 @@ Theorem C03_index_parameters : forall m values universe,
 Proof. exact si_parameters_spec. Qed.
 Print Assumptions C03_index_parameters.
 
-(* SampleIndex::new accepts NON-DECREASING values starting with 0 (the relaxed assertion), and range(x) then
-   returns a non-empty range of value indexes whose first value is <= x *)
-Theorem C03_index_range_partial : forall m V U x,
-  V <> [] -> nthN V 0 = Some 0 -> nondec V -> 1 <= U < 2 ^ 64 -> lenN V + 8 < 2 ^ 64 -> x < U ->
-  exists si s e y, si_new m V U = Ok si /\ si_range m si x = Ok (s, e) /\
-    s < e /\ e <= lenN V /\ nthN V s = Some y /\ y <= x.
-Proof.
-  intros m V U x Hne H0 Hnd HU HV Hx.
-  destruct (si_new_spec m V U Hne H0 Hnd HU HV) as (si & Hn & Hok).
-  destruct (si_range_spec m si V U x Hok Hx ltac:(apply HU)) as (s & e & y & Hr & H1 & H2 & H3 & H4).
-  exists si, s, e, y. split; [exact Hn|]. split; [exact Hr|]. split; [exact H1|]. split; [exact H2|]. split; [exact H3|exact H4].
-Qed.
-Print Assumptions C03_index_range_partial.
-(* full statement of the range property (the upper end as well); the proved part above is what the queries need:
-   any block whose sample is <= x is a correct starting point of the scan *)
-Definition C03_index_range_statement : Prop := forall m V U x,
+(* SampleIndex::new accepts NON-DECREASING values starting with 0 (the relaxed assertion of the repair), and
+   range(x) then returns start < end <= n with values[start] <= x and (end = n or x < values[end]) *)
+Theorem C03_index_range : forall m V U x,
   V <> [] -> nthN V 0 = Some 0 -> nondec V -> 1 <= U < 2 ^ 64 -> lenN V + 8 < 2 ^ 64 -> x < U ->
   exists si s e y, si_new m V U = Ok si /\ si_range m si x = Ok (s, e) /\
     s < e /\ e <= lenN V /\ nthN V s = Some y /\ y <= x /\
     (e = lenN V \/ exists z, nthN V e = Some z /\ x < z).
-
-(* block_for terminates within 64 iterations on every range of at most 2^63 blocks and returns an index of the
-   range whose key is <= x whenever the first key of the range is *)
-Theorem C03_block_for_partial : forall m x f g low high,
-  (forall i, low <= i < high -> f i = Ok (g i)) -> low < high -> high - low <= 2 ^ 63 -> g low <= x ->
-  exists i, rl_block_for 64 m low high x f = Ok i /\ low <= i < high /\ g i <= x.
 Proof.
-  intros m x f g low high Hf Hlt Hd Hg.
-  destruct (block_for_spec 64 m x f g low high Hf) as (i & Hb & H1 & H2 & H3); try (apply N.lt_le_incl; assumption).
-  - exact Hd.
-  - apply le_S. apply le_S. repeat constructor.
-  - exists i. split; [exact Hb|]. split.
-    + split; [assumption|]. destruct H2 as [H2|H2]; [assumption|]. rewrite H2. assumption.
-    + destruct H3 as [H3|H3]; [rewrite H3|]; assumption.
+  intros m V U x Hne H0 Hnd HU HV Hx.
+  destruct (si_new_spec m V U Hne H0 Hnd HU HV) as (si & Hn & Hok).
+  destruct (si_range_full m si V U x Hok Hx ltac:(apply HU)) as (s & e & y & Hr & H1 & H2 & H3 & H4 & H5).
+  exists si, s, e, y. split; [exact Hn|]. split; [exact Hr|]. split; [exact H1|]. split; [exact H2|].
+  split; [exact H3|]. split; [exact H4|exact H5].
 Qed.
-Print Assumptions C03_block_for_partial.
-(* full statement: for a monotone key the LAST index of the range with key <= x is returned *)
-Definition C03_block_for_statement : Prop := forall m x f g low high,
+Print Assumptions C03_index_range.
+
+(* block_for terminates within its 64 iterations on every range of at most 2^63 blocks and, for a monotone key
+   whose first value is <= x, returns the LAST index of the range with key <= x *)
+Theorem C03_block_for : forall m x f g low high,
   (forall i, low <= i < high -> f i = Ok (g i)) -> low < high -> high - low <= 2 ^ 63 -> g low <= x ->
   (forall i j, low <= i -> i <= j -> j < high -> g i <= g j) ->
   exists i, rl_block_for 64 m low high x f = Ok i /\ low <= i < high /\ g i <= x /\
             forall j, i < j -> j < high -> x < g j.
+Proof.
+  intros m x f g low high Hf Hlt Hd Hg Hmono.
+  apply (block_for_last 64 m x f g low high low high); try assumption.
+  - apply N.le_refl.
+  - apply N.le_refl.
+  - left. reflexivity.
+  - apply le_S. apply le_S. repeat constructor.
+Qed.
+Print Assumptions C03_block_for.
 
 (* the block partition of the built vector: [rl_ok v BS L] says that data = the blocks BS of whole maximal runs,
    each at most 64 code units, zero padded except the last, samples = (ones, bits) before each block, and the
